@@ -45,6 +45,7 @@ func heldAt(c *eng.Ctx, fn *ssa.Function, in ssa.Instruction, mu string, write b
 
 func runC06(c *eng.Ctx) {
 	p := c.P
+	pageFileRemovedOnlyByTruncation(c)
 	everyPersistedGroupLoaded(c)
 	indexResetExcludesGroupCreation(c)
 	c.Rule("PROV", "pkg/queue.consumerGroup.IsEmpty{appended <= acknowledged}", func() { groupEmptyMeansAcknowledged(c) })
